@@ -17,6 +17,77 @@ type RenderConfig struct {
 	SoftBreak int // 0 preserve, 1 space, 2 harden
 	IgnoreRaw bool
 	Refs      cm.ReferenceMap
+	// Filter, if non-nil, is the tag predicate. Generated tags are written with
+	// their '<' escaped exactly when the predicate accepts the name the renderer
+	// shows it: "name" for a start tag and "/name" for an end tag (the
+	// documentation does not say what an end tag is shown as; this follows the
+	// implementation and is listed in the calibration log). Raw HTML is written
+	// with RawLT in place of every '<', because which of those are escaped is
+	// C17's subject: the comparison accepts '<' or "&lt;" there.
+	Filter func([]byte) bool
+}
+
+// RawLT stands for a '<' of raw HTML in the reference output when a filter is set.
+const RawLT = "\x01"
+
+// MatchFiltered compares renderer output with a reference output that may
+// contain RawLT: at a RawLT the output may have '<' or "&lt;".
+func MatchFiltered(got, want string) bool {
+	i, j := 0, 0
+	for j < len(want) {
+		if want[j] == RawLT[0] {
+			switch {
+			case strings.HasPrefix(got[i:], "&lt;"):
+				i += 4
+			case i < len(got) && got[i] == '<':
+				i++
+			default:
+				return false
+			}
+			j++
+			continue
+		}
+		if i >= len(got) || got[i] != want[j] {
+			return false
+		}
+		i++
+		j++
+	}
+	return i == len(got)
+}
+
+// open writes "<name" (no closing bracket) of a generated start tag.
+func (r *refRenderer) open(name string) {
+	if r.cfg.Filter != nil && r.cfg.Filter([]byte(name)) {
+		r.sb.WriteString("&lt;")
+	} else {
+		r.sb.WriteString("<")
+	}
+	r.sb.WriteString(name)
+}
+
+// tag writes a complete generated start tag without attributes.
+func (r *refRenderer) tag(name string) {
+	r.open(name)
+	r.sb.WriteString(">")
+}
+
+// end writes a generated end tag.
+func (r *refRenderer) end(name string) {
+	if r.cfg.Filter != nil && r.cfg.Filter([]byte("/"+name)) {
+		r.sb.WriteString("&lt;/")
+	} else {
+		r.sb.WriteString("</")
+	}
+	r.sb.WriteString(name)
+	r.sb.WriteString(">")
+}
+
+func (r *refRenderer) raw(s string) {
+	if r.cfg.Filter != nil {
+		s = strings.ReplaceAll(s, "<", RawLT)
+	}
+	r.sb.WriteString(s)
 }
 
 // escText escapes text content (the renderer's documented escape set for text).
@@ -142,24 +213,25 @@ func (r *refRenderer) block(b *cm.Block, parent *cm.Block) {
 	case cm.ParagraphKind:
 		tight := parent != nil && parent.IsTightList()
 		if !tight {
-			w.WriteString("<p>")
+			r.tag("p")
 		}
 		r.children(b.AsNode(), b)
 		if !tight {
-			w.WriteString("</p>")
+			r.end("p")
 		}
 	case cm.ThematicBreakKind:
-		w.WriteString("<hr>")
+		r.tag("hr")
 	case cm.ATXHeadingKind, cm.SetextHeadingKind:
 		l := b.HeadingLevel()
 		if l < 1 || l > 6 {
 			l = 6
 		}
-		w.WriteString("<h" + strconv.Itoa(l) + ">")
+		r.tag("h" + strconv.Itoa(l))
 		r.children(b.AsNode(), b)
-		w.WriteString("</h" + strconv.Itoa(l) + ">")
+		r.end("h" + strconv.Itoa(l))
 	case cm.IndentedCodeBlockKind, cm.FencedCodeBlockKind:
-		w.WriteString("<pre><code")
+		r.tag("pre")
+		r.open("code")
 		if info := b.InfoString(); info != nil {
 			if fw := firstWord(info.Text(r.src)); fw != "" {
 				w.WriteString(` class="language-`)
@@ -169,14 +241,15 @@ func (r *refRenderer) block(b *cm.Block, parent *cm.Block) {
 		}
 		w.WriteString(">")
 		r.children(b.AsNode(), b)
-		w.WriteString("</code></pre>")
+		r.end("code")
+		r.end("pre")
 	case cm.BlockQuoteKind:
-		w.WriteString("<blockquote>")
+		r.tag("blockquote")
 		r.children(b.AsNode(), b)
-		w.WriteString("</blockquote>")
+		r.end("blockquote")
 	case cm.ListKind:
 		if b.IsOrderedList() {
-			w.WriteString("<ol")
+			r.open("ol")
 			if b.ChildCount() > 0 {
 				if it := b.Child(0).Block(); it != nil {
 					if n := it.ListItemNumber(r.src); n >= 0 && n != 1 {
@@ -186,16 +259,16 @@ func (r *refRenderer) block(b *cm.Block, parent *cm.Block) {
 			}
 			w.WriteString(">")
 			r.children(b.AsNode(), b)
-			w.WriteString("</ol>")
+			r.end("ol")
 		} else {
-			w.WriteString("<ul>")
+			r.tag("ul")
 			r.children(b.AsNode(), b)
-			w.WriteString("</ul>")
+			r.end("ul")
 		}
 	case cm.ListItemKind:
-		w.WriteString("<li>")
+		r.tag("li")
 		r.children(b.AsNode(), b)
-		w.WriteString("</li>")
+		r.end("li")
 	case cm.HTMLBlockKind:
 		if !r.cfg.IgnoreRaw {
 			r.children(b.AsNode(), b)
@@ -250,34 +323,37 @@ func (r *refRenderer) inline(in *cm.Inline) {
 		w.Write(r.src[sp.Start:sp.End])
 	case cm.RawHTMLKind:
 		if !r.cfg.IgnoreRaw {
-			w.WriteString(in.Text(r.src))
+			r.raw(in.Text(r.src))
 		}
 	case cm.SoftLineBreakKind:
 		switch r.cfg.SoftBreak {
 		case 2:
-			w.WriteString("<br>\n")
+			r.tag("br")
+			w.WriteString("\n")
 		case 1:
 			w.WriteByte(' ')
 		default:
 			w.WriteString(in.Text(r.src))
 		}
 	case cm.HardLineBreakKind:
-		w.WriteString("<br>\n")
+		r.tag("br")
+		w.WriteString("\n")
 	case cm.EmphasisKind:
-		w.WriteString("<em>")
+		r.tag("em")
 		r.children(in.AsNode(), nil)
-		w.WriteString("</em>")
+		r.end("em")
 	case cm.StrongKind:
-		w.WriteString("<strong>")
+		r.tag("strong")
 		r.children(in.AsNode(), nil)
-		w.WriteString("</strong>")
+		r.end("strong")
 	case cm.CodeSpanKind:
-		w.WriteString("<code>")
+		r.tag("code")
 		r.children(in.AsNode(), nil)
-		w.WriteString("</code>")
+		r.end("code")
 	case cm.LinkKind:
 		d := r.linkDef(in)
-		w.WriteString(`<a href="`)
+		r.open("a")
+		w.WriteString(` href="`)
 		escAttr(w, NormURI(d.Destination))
 		w.WriteString(`"`)
 		if d.TitlePresent {
@@ -287,10 +363,11 @@ func (r *refRenderer) inline(in *cm.Inline) {
 		}
 		w.WriteString(">")
 		r.children(in.AsNode(), nil)
-		w.WriteString("</a>")
+		r.end("a")
 	case cm.ImageKind:
 		d := r.linkDef(in)
-		w.WriteString(`<img src="`)
+		r.open("img")
+		w.WriteString(` src="`)
 		escAttr(w, NormURI(d.Destination))
 		w.WriteString(`"`)
 		if d.TitlePresent {
@@ -306,14 +383,15 @@ func (r *refRenderer) inline(in *cm.Inline) {
 		if in.ChildCount() > 0 {
 			dest = in.Child(0).Text(r.src)
 		}
-		w.WriteString(`<a href="`)
+		r.open("a")
+		w.WriteString(` href="`)
 		if IsEmailAddress(dest) {
 			w.WriteString("mailto:")
 		}
 		escAttr(w, NormURI(dest))
 		w.WriteString(`">`)
 		escAttr(w, dest)
-		w.WriteString("</a>")
+		r.end("a")
 	case cm.IndentKind:
 		for i := 0; i < in.IndentWidth(); i++ {
 			w.WriteByte(' ')
